@@ -31,7 +31,18 @@ func modeOf(con *Contract) Mode {
 func (v *FV) assertAxioms(only []string) {
 	for _, ax := range v.eng.db.Axioms {
 		if ax.Lemma {
-			continue
+			used := false
+			if v.con != nil {
+				for _, u := range v.con.Uses {
+					if u == ax.Name {
+						used = true
+					}
+				}
+			}
+			if !used {
+				continue
+			}
+			v.trusted["lemma "+ax.Name+" (proved as its own obligation, used here as a hypothesis)"] = true
 		}
 		if (ax.Arith == "math") != (v.mode == ModeMath) {
 			continue
@@ -92,6 +103,11 @@ func (e *Engine) VerifyFunction(fn *ssa.Function, con *Contract) (v *FV) {
 		fr.params[p.Name()] = tv
 		if i == 0 && fn.Signature.Recv() != nil {
 			fr.params["self"] = tv
+			if _, isPtr := p.Type().Underlying().(*types.Pointer); isPtr {
+				// implicit precondition of every method under contract: non-nil receiver
+				// (checked at call sites of the contract as obligation nil.recv)
+				v.emit(fmt.Sprintf("(assert (> %s 0))", name))
+			}
 		}
 		if v.isRefLike(p.Type()) {
 			v.assume("true", fmt.Sprintf("(and (>= %s 0) (<= %s %s))", name, name, v.n0))
@@ -110,6 +126,19 @@ func (e *Engine) VerifyFunction(fn *ssa.Function, con *Contract) (v *FV) {
 		fr.vals[fvv] = TV{T: name, Ty: fvv.Type(), Sort: s}
 	}
 	fr.oldSnap = st.snap.clone()
+	for _, gi := range e.db.GlobalInvs {
+		if fn.Pkg == nil || gi.Pkg != fn.Pkg.Pkg.Path() {
+			continue
+		}
+		genv := &ExprEnv{v: v, vars: map[string]TV{}, snap: st.snap, pkg: fn.Pkg.Pkg, what: "globalinv"}
+		t, err := genv.EvalBool(gi.Text)
+		if err != nil {
+			v.specError(Clause{File: gi.File, Line: gi.Line, Text: gi.Text}, err)
+			continue
+		}
+		v.assume("true", t)
+		v.trusted["package-variable invariant (assumed at entry): "+gi.Text] = true
+	}
 	env := v.exprEnv(fr, st, "requires of "+con.Key)
 	for _, c := range con.Requires {
 		t, err := env.EvalBool(c.Text)
@@ -341,4 +370,141 @@ func (v *FV) relevantAxioms(text string) []axiomTerm {
 	}
 	v.axMu.Unlock()
 	return out
+}
+
+// VerifyRefinement: the contract of a concrete method implies the contract of the
+// interface method it implements (same parameter names are assumed).
+func (e *Engine) VerifyRefinement(fn *ssa.Function, impl, iface *Contract, ifaceT types.Type) *FV {
+	v := e.newFV(fn, impl, modeOf(impl))
+	v.curFnKey = shortKey(impl.Key)
+	defer func() {
+		if r := recover(); r != nil {
+			if ee, ok := r.(*exprError); ok {
+				v.oblige("engine", "", "", "refinement could not be generated: "+ee.msg, "true", "false")
+				return
+			}
+			panic(r)
+		}
+	}()
+	v.assertAxioms(nil)
+	st := &State{reach: "true", snap: &Snapshot{ep: v.newEpoch(0), over: map[string]Term{}}, env: map[string]TV{}, addr: map[string]TV{}}
+	vars := map[string]TV{}
+	for i, p := range fn.Params {
+		s := v.sortOf(p.Type())
+		name := fmt.Sprintf("in_%s", mangle(p.Name()))
+		v.emit(fmt.Sprintf("(declare-const %s %s)", name, s))
+		tv := TV{T: name, Ty: p.Type(), Sort: s}
+		if v.isRefLike(p.Type()) {
+			v.assume("true", fmt.Sprintf("(and (>= %s 0) (<= %s %s))", name, name, v.n0))
+		} else {
+			v.assume("true", v.typeFacts(name, p.Type()))
+		}
+		vars[p.Name()] = tv
+		if i == 0 {
+			vars["self"] = tv
+			v.assume("true", fmt.Sprintf("(and (> %s 0) (= (dyn_type %s) %s))", name, name, v.typeID(p.Type())))
+		}
+	}
+	// interface parameter names may differ: bind by position as well
+	if m, ok := ifaceMethod(ifaceT, fn.Name()); ok {
+		sig := m.Type().(*types.Signature)
+		for i := 0; i < sig.Params().Len() && i+1 < len(fn.Params); i++ {
+			n := sig.Params().At(i).Name()
+			if i < len(iface.ParamName) {
+				n = iface.ParamName[i]
+			}
+			if n != "" && n != "_" {
+				if _, clash := vars[n]; !clash {
+					vars[n] = vars[fn.Params[i+1].Name()]
+				}
+			}
+			vars[fmt.Sprintf("arg%d", i)] = vars[fn.Params[i+1].Name()]
+		}
+	}
+	pkg := fn.Pkg.Pkg
+	ipkg := v.pkgOf(iface.Pkg)
+	if ipkg == nil {
+		ipkg = pkg
+	}
+	ifaceVars := map[string]TV{}
+	for k, x := range vars {
+		ifaceVars[k] = x
+	}
+	if self, ok := vars["self"]; ok {
+		ifaceVars["self"] = TV{T: self.T, Ty: ifaceT, Sort: "Int"}
+	}
+	pre := st.snap.clone()
+	ienv := &ExprEnv{v: v, vars: ifaceVars, snap: st.snap, pkg: ipkg, what: "interface contract " + iface.Key}
+	for _, c := range iface.Requires {
+		t, err := ienv.EvalBool(c.Text)
+		if err != nil {
+			v.specError(c, err)
+			continue
+		}
+		v.assume("true", t)
+	}
+	menv := &ExprEnv{v: v, vars: vars, snap: st.snap, pkg: pkg, what: "contract " + impl.Key}
+	short := shortKey(iface.Key)
+	for i, c := range impl.Requires {
+		t, err := menv.EvalBool(c.Text)
+		if err != nil {
+			v.specError(c, err)
+			continue
+		}
+		v.oblige("refine.pre", fmt.Sprint(i+1), fmt.Sprintf("%s:%d", shortFile(c.File), c.Line), "requires of "+short+" implies: "+c.Text, "true", t)
+	}
+	// post state: havoc what the implementation may modify
+	if !impl.HasMod {
+		// nothing modified
+	} else {
+		for _, m := range impl.Modifies {
+			if m == "*" {
+				v.havocAll(st.snap)
+				continue
+			}
+			envM := &ExprEnv{v: v, vars: vars, snap: pre, pkg: pkg, what: "modifies"}
+			if _, err := v.locWrite(envM, st, m, ""); err != nil {
+				v.specError(Clause{File: impl.File, Line: impl.Line, Text: "modifies " + m}, err)
+			}
+		}
+	}
+	results := v.freshResultsFor(st, fn.Signature.Results(), "res", impl.Fresh)
+	bindResultNames(vars, fn.Signature, results)
+	bindResultNames(ifaceVars, fn.Signature, results)
+	menv2 := &ExprEnv{v: v, vars: vars, snap: st.snap, old: pre, pkg: pkg, what: "contract " + impl.Key}
+	for _, c := range impl.Ensures {
+		t, err := menv2.EvalBool(c.Text)
+		if err != nil {
+			v.specError(c, err)
+			continue
+		}
+		v.assume("true", t)
+	}
+	ienv2 := &ExprEnv{v: v, vars: ifaceVars, snap: st.snap, old: pre, pkg: ipkg, what: "interface contract " + iface.Key}
+	for i, c := range iface.Ensures {
+		t, err := ienv2.EvalBool(c.Text)
+		if err != nil {
+			v.specError(c, err)
+			continue
+		}
+		v.oblige("refine.post", fmt.Sprint(i+1), fmt.Sprintf("%s:%d", shortFile(c.File), c.Line), "ensures of "+short+": "+c.Text, "true", t)
+	}
+	// frame inclusion: whatever the implementation modifies must be allowed by the interface
+	if impl.HasMod && len(impl.Modifies) > 0 && !iface.HasMod {
+		v.oblige("refine.frame", "", "", "implementation modifies state but the interface contract declares none", "true", "false")
+	}
+	return v
+}
+
+func ifaceMethod(t types.Type, name string) (*types.Func, bool) {
+	it, ok := t.Underlying().(*types.Interface)
+	if !ok {
+		return nil, false
+	}
+	for i := 0; i < it.NumMethods(); i++ {
+		if it.Method(i).Name() == name {
+			return it.Method(i), true
+		}
+	}
+	return nil, false
 }
